@@ -188,7 +188,8 @@ Proof.
   - intros E. injection E as <- <-. cbn. repeat split.
     intros kv Hin. apply setArg_In in Hin as [->|Hin]; [right; left; reflexivity|].
     destruct (Hh1 _ Hin) as [Hl|Hr]; [now left|right; now right].
-  - destruct (negb (r_body r =? 0)%Z || negb (ignoreBody (r_method r))).
+  - destruct (body_to_send r) as [body mp].
+    destruct (negb (body =? 0)%Z || negb (ignoreBody (r_method r))).
     + intros E. injection E as <- <-. cbn. repeat split.
       intros kv Hin. apply delAllArgs_In in Hin as [Hin _].
       destruct (Hh1 _ Hin) as [Hl|Hr]; [now left|right; now right].
@@ -420,22 +421,45 @@ Proof.
   intros Hh. apply orb_false_iff in Hh as [H1 H2]. destruct (negb (beq (fst x) k')); [cbn [existsb]; now rewrite H1, IH|now apply IH].
 Qed.
 
-(* the request state right after a followed 303 *)
+(* Del on the special fields *)
+Lemma hdel_CL r : r_clb (hdel HeaderContentLength r) = false /\ r_cl (hdel HeaderContentLength r) = 0%Z.
+Proof. destruct (normKey_consts (r_dn r)) as (K & _). unfold hdel. cbn [set_framing r_clb r_cl]. now rewrite K, beq_refl. Qed.
+Lemma hdel_CT r : r_ct (hdel HeaderContentType r) = false.
+Proof. destruct (normKey_consts (r_dn r)) as (_ & K & _). unfold hdel. cbn [set_framing r_ct]. now rewrite K, beq_refl. Qed.
+Lemma hdel_TE r : has_key HeaderTransferEncoding (r_h (hdel HeaderTransferEncoding r)) = false.
+Proof. destruct (normKey_consts (r_dn r)) as (_ & _ & K & _). unfold hdel. cbn [set_framing r_h]. rewrite K. apply has_key_delAllArgs. Qed.
+Lemma hdel_keep k r :
+  (r_clb r = false -> r_clb (hdel k r) = false) /\ (r_cl r = 0%Z -> r_cl (hdel k r) = 0%Z) /\ (r_ct r = false -> r_ct (hdel k r) = false) /\
+  (has_key HeaderTransferEncoding (r_h r) = false -> has_key HeaderTransferEncoding (r_h (hdel k r)) = false).
+Proof.
+  unfold hdel. cbn [set_framing r_clb r_cl r_ct r_h]. repeat split.
+  - intros ->. now destruct (beq _ HeaderContentLength).
+  - intros ->. now destruct (beq _ HeaderContentLength).
+  - intros ->. now destruct (beq _ HeaderContentType).
+  - apply has_key_delAllArgs_other.
+Qed.
+
+(* the request state right after a followed 303: GET/HEAD, no framing field, and EVERY body source empty *)
 Definition after303 (prev : bytes) (r : req) : Prop :=
-  r_method r = (if ignoreBody prev then prev else MethodGet) /\ r_body r = 0%Z /\ r_stream r = None /\
+  r_method r = (if ignoreBody prev then prev else MethodGet) /\
+  (r_body r = 0%Z /\ r_stream r = None /\ r_raw r = None /\ r_mpart r = None /\ r_pargs r = 0%Z /\ r_parsed r = false) /\
   r_clb r = false /\ r_ct r = false /\ r_cl r = 0%Z /\ has_key HeaderTransferEncoding (r_h r) = false.
 
 Lemma rewrite_303 r : after303 (r_method r) (rewrite_req StatusSeeOther r).
 Proof.
-  unfold rewrite_req. rewrite Z.eqb_refl. unfold after303. cbn [r_method r_body r_stream].
-  destruct (normKey_consts (r_dn r)) as (Kcl & Kct & Kte & Ktr).
-  unfold hdel at 1. cbn [r_method r_h r_dn r_ct r_cl r_clb r_body r_stream].
-  repeat split.
-  - (* contentLengthBytes *)
-    unfold hdel; cbn [r_dn r_clb]. rewrite Ktr, Kte, Kct, Kcl. vm_compute. reflexivity.
-  - unfold hdel; cbn [r_dn r_ct]. rewrite Ktr, Kte, Kct. vm_compute. reflexivity.
-  - unfold hdel; cbn [r_dn r_cl]. rewrite Ktr, Kte, Kct, Kcl. vm_compute. reflexivity.
-  - unfold hdel; cbn [r_dn r_h]. rewrite Ktr, Kte. apply has_key_delAllArgs_other, has_key_delAllArgs.
+  unfold rewrite_req. rewrite Z.eqb_refl. cbv zeta.
+  set (r1 := set_method r (if ignoreBody (r_method r) then r_method r else MethodGet)).
+  set (ra := hdel HeaderContentLength r1). set (rb := hdel HeaderContentType ra).
+  set (rc := hdel HeaderTransferEncoding rb). set (rd := hdel HeaderTrailer rc).
+  unfold after303. split; [reflexivity|]. split; [repeat split|].
+  cbn [reset_postargs ResetBody r_clb r_ct r_cl r_h].
+  destruct (hdel_CL r1) as [A1 A2]. fold ra in A1, A2.
+  pose proof (hdel_CT ra) as B1. fold rb in B1.
+  pose proof (hdel_TE rb) as C1. fold rc in C1.
+  destruct (hdel_keep HeaderContentType ra) as (Kb1 & Kb2 & _ & _). fold rb in Kb1, Kb2.
+  destruct (hdel_keep HeaderTransferEncoding rb) as (Kc1 & Kc2 & Kc3 & _). fold rc in Kc1, Kc2, Kc3.
+  destruct (hdel_keep HeaderTrailer rc) as (Kd1 & Kd2 & Kd3 & Kd4). fold rd in Kd1, Kd2, Kd3, Kd4.
+  repeat split; auto.
 Qed.
 
 Definition sent_after303 (prev : bytes) (s : sent) : Prop :=
@@ -447,9 +471,11 @@ Proof. destruct (ignoreBody prev) eqn:E; [exact E|vm_compute; reflexivity]. Qed.
 
 Lemma write_after303 prev r r1 s : after303 prev r -> write None r = (r1, s) -> sent_after303 prev s.
 Proof.
-  intros (Hm & Hb & Hs & Hclb & Hct & Hcl & Hte). unfold write. rewrite Hs, Hb, Hm, ignoreBody_after. cbn [Z.eqb negb orb].
-  intros E. injection E as <- <-. unfold sent_after303, mk_sent. cbn [s_method s_body s_cl s_ct s_te r_method r_h r_clb r_ct r_cl].
-  rewrite Hte, Hclb, Hct, Hcl. repeat split.
+  intros (Hm & (Hb & Hs & Hraw & Hmp & Hpa & _) & Hclb & Hct & Hcl & Hte). unfold write, body_to_send.
+  rewrite Hs, Hraw, Hmp, Hb, Hpa, Hm, ignoreBody_after. cbn [Z.eqb negb orb].
+  intros E. injection E as <- <-. unfold sent_after303, mk_sent, set_framing.
+  cbn [s_method s_body s_cl s_ct s_te r_method r_h r_clb r_ct r_cl].
+  rewrite Hte, Hclb, Hct, Hcl, Hm. repeat split.
 Qed.
 
 Lemma rewrite_post st r : (st = StatusMovedPermanently \/ st = StatusFound) -> beq (r_method r) MethodPost = true ->
@@ -551,11 +577,11 @@ Proof. unfold run. apply follow_ghost. Qed.
 Lemma repaired_examples :
   isDomainOrSubdomainBytes (h "61c5bf6b2e636f6d") (s2b "ask.com") = false /\
   isDomainOrSubdomainBytes (h "61732e4b2e636f6d") (s2b "as.k.com") = true /\
-  (let r0 := mkReq MethodGet [(s2b "authorization", s2b "secret"); (s2b "COOKIE2", s2b "x")] true false 0%Z false 0%Z None in
+  (let r0 := mkReqB MethodGet [(s2b "authorization", s2b "secret"); (s2b "COOKIE2", s2b "x")] true false 0%Z false 0%Z None in
    map (fun hp => length (s_sens (h_sent hp)))
        (fst (run 5 (s2b "http://a.com/") (s2b "a.com") true None r0 [mkAns 302 (s2b "http://evil.com/x") (s2b "evil.com") true]))
    = [2%nat; 0%nat]) /\
-  (let r0 := mkReq MethodGet [(s2b "authorization", s2b "secret")] false false 0%Z false 0%Z None in
+  (let r0 := mkReqB MethodGet [(s2b "authorization", s2b "secret")] false false 0%Z false 0%Z None in
    map (fun hp => length (s_sens (h_sent hp)))
        (fst (run 5 (s2b "http://a.com/") (s2b "a.com") true None r0 [mkAns 302 (s2b "http://evil.com/x") (s2b "evil.com") true]))
    = [1%nat; 0%nat]).
